@@ -163,6 +163,58 @@ def cert_line(case, res):
     return " ".join(["assigncert", str(n)] + wt + [str(c) for c in cols] + [fr(x) for x in u2] + [fr(x) for x in v] + [fr(delta)])
 
 
+BRUTE_N = 7      # the model's own brute-force optimum (optAssign, proved to be THE maximum: C04_optAssign_spec) is used up to this size
+
+
+def brute_lines(case, res):
+    """op lines for the kernel-verified brute-force reference: the optimum (or `infeasible`) and, when the implementation returned an
+    assignment, the value of that very assignment computed inside the model"""
+    W, n = case["W"], case["n"]
+    wt = [fr(v) for row in W for v in row]
+    out = [" ".join(["assignopt", str(n)] + wt)]
+    if "cols" in res:
+        fixer = 0 if case.get("zero", True) else 1
+        cols = [c - fixer for c in res["cols"]]
+        if sorted(cols) == list(range(n)):
+            out.append(" ".join(["assignval", str(n)] + wt + [str(c) for c in cols]))
+    return out
+
+
+@safe_judge
+def judge_brute(R, case, res, answers):
+    """implementation vs the model's brute-force optimum; nothing computed in Python is trusted here"""
+    W = case["W"]
+    inp = {"W": W, "pre": case.get("pre")}
+    opt = answers[0]
+    if "hang" in res:
+        return
+    R.count("brute_force_reference(optAssign)")
+    if opt == "err infeasible":
+        if "exc" not in res:
+            R.violation("property_violation", "raises when no assignment of acceptable pairs exists", ENTRY, inp, impl_output=res,
+                        model_output=opt, oracle="the model's optAssign finds no acceptable permutation")
+        return
+    if not opt.startswith("ok "):
+        R.corr_break("the model's brute-force optimum is defined on this input", ENTRY, inp, res, opt)
+        return
+    if "exc" in res:
+        R.violation("property_violation", "returns an assignment whenever one exists", ENTRY, inp, impl_output=res, model_output=opt,
+                    oracle="the model's optAssign finds an acceptable permutation")
+        return
+    if len(answers) < 2 or not answers[1].startswith("ok "):
+        R.violation("property_violation", "one-to-one assignment using only acceptable pairs", ENTRY, inp, impl_output=res.get("cols"),
+                    model_output=answers[1:] or None, oracle="the model cannot evaluate the returned assignment (not a permutation / uses a NaN pair)")
+        return
+    best, val = Fraction(opt.split()[1]), Fraction(answers[1].split()[1])
+    mag = max([abs(Fraction(x)) for row in W for x in row if x is not None] + [Fraction(0)])
+    exact = case["exact"] if case.get("exact") is not None else exact_data(W)
+    tol = Fraction(0) if exact else Fraction(1, 10 ** 9) * mag
+    if best - val > tol or val > best:
+        R.violation("property_violation", "total utility equals the maximum over all acceptable assignments (model's brute-force optimum)", ENTRY, inp,
+                    impl_output=res["cols"], model_output={"optAssign": fr(best), "value_of_returned_assignment": fr(val)},
+                    oracle="kernel-verified brute force over all permutations (C04_optAssign_spec)")
+
+
 def run_cases(R, cases, deadline):
     results = pmap("c04", "impl_one", cases, deadline=deadline, workers=12)
     lines, idx = [], []
@@ -171,9 +223,19 @@ def run_cases(R, cases, deadline):
         if l is not None:
             lines.append(l)
             idx.append(i)
-    ans = dict(zip(idx, lean_query(lines)))
+    blines, bidx = [], []
+    for i, (c, r) in enumerate(zip(cases, results)):
+        if c["n"] <= BRUTE_N and not (isinstance(r, dict) and "hang" in r):
+            ls = brute_lines(c, r)
+            bidx.append((i, len(blines), len(blines) + len(ls)))
+            blines += ls
+    allans = lean_query(lines + blines)
+    ans = dict(zip(idx, allans[:len(lines)]))
+    bans = allans[len(lines):]
     for i, (c, r) in enumerate(zip(cases, results)):
         judge(R, c, r, ans.get(i))
+    for i, a, b in bidx:
+        judge_brute(R, cases[i], results[i], bans[a:b])
 
 
 def corpus():
@@ -187,7 +249,7 @@ def run(R):
               "incl. infeasible patterns; 20% of the matrices rescaled to other magnitudes (2^-70 .. 1e9); each call supervised by a deadline (5 s quick / 20 s thorough). Every output is certified: exact "
               "Hungarian potentials from the harness + Lean assignCertOk, or a Hall violator + Lean hallCertOk when the code raises. "
               "Non-trivial = n>=3 with NaN or repeated values.")
-    R.assumptions = ["scipy's solver is not modelled: its output is certified per call (LP weak duality / Hall)",
+    R.assumptions = ["scipy's solver is not modelled: its output is certified per call (LP weak duality / Hall) and, for n <= 7, compared with the model's own brute-force optimum optAssign (C04_optAssign_spec: it IS the maximum over all acceptable permutations)",
                      "tolerance 0 on integer/dyadic data (also when rescaled by a power of two), 1e-9 * (largest utility) on generic floats (absorbs the solver's own rounding; relative, so tiny magnitudes are judged as strictly as ordinary ones)"]
     cases = []
     for c in corpus():
